@@ -104,18 +104,21 @@ Definition new_tmr : tmr := mktmr 0 false false 0 0 None false.
 Inductive sysres : Type := SGot (n : Z) | SEof | SWouldBlock | SFail (e : Z).
 
 Definition sys_read (o : obj) (want : Z) : obj * sysres :=
-  if o_closed o then (o, SFail xEBADF)
-  else if e_rst o then (o, SFail xReset)
+  if o_closed o || (match o_kind o with KPipeW => true | _ => false end) then (o, SFail xEBADF)
   else if 0 <? e_rq o then
+    (* buffered data is delivered first, also after the peer closed or reset the connection *)
     let n := Z.min want (e_rq o) in
     (mkobj (o_kind o) (o_closed o) (o_evR o) (o_evW o) (o_rd o) (o_wr o) (o_reg o) (e_rq o - n) (e_reof o) (e_rst o) (e_wdead o), SGot n)
+  else if e_rst o then
+    (* the pending socket error is reported once; afterwards the socket reads as end-of-stream *)
+    (mkobj (o_kind o) (o_closed o) (o_evR o) (o_evW o) (o_rd o) (o_wr o) (o_reg o) (e_rq o) true false (e_wdead o), SFail xReset)
   else match o_kind o with
        | KReg => (o, SEof)
        | _ => if e_reof o then (o, SEof) else (o, SWouldBlock)
        end.
 
 Definition sys_write (o : obj) (want : Z) : obj * sysres :=
-  if o_closed o then (o, SFail xEBADF)
+  if o_closed o || (match o_kind o with KPipeR => true | _ => false end) then (o, SFail xEBADF)
   else if e_rst o then (o, SFail xReset)
   else if e_wdead o then (o, SFail xEPIPE)
   else (o, SGot want).                   (* buffers are never filled by the scripts *)
